@@ -81,6 +81,7 @@ type loopRec struct {
 	measure    string
 	hasMeasure bool
 	modified   map[string]bool
+	headSeq    int // the engine's counter at the head of the current iteration: later call records belong to this iteration
 }
 
 type deferred struct {
@@ -109,6 +110,7 @@ type Frame struct {
 // callRec is the most recent call of a function under contract in the current loop iteration.
 type callRec struct {
 	args, results []V
+	seq           int // position in the execution (the engine's counter when the call returned)
 }
 
 type State struct {
